@@ -404,11 +404,11 @@ OBLIGATIONS = [
        sym=dict(t0=B, t1=B, t2=B, n0=R(1, 2), n1=R(1, 2), n2=R(1, 2), w=R(0, 3), adj=R(0, 2), fin=B),
        shards=dict(t0=[False, True], t1=[False, True], t2=[False, True], w=[0, 1, 3]),
        fixed=dict(t3=False, n3=0, nw=3, pktsize=2),
-       thorough_sym=dict(t3=B, n3=R(0, 2), pktsize=R(1, 3), nw=R(4, 4)),
+       thorough_sym=dict(t3=B, n3=R(1, 2), nw=R(4, 4)),
        thorough_shards=dict(t0=[False, True], t1=[False, True], t2=[False, True], w=[0, 1, 2, 4]),
        timeout=200, thorough_timeout=900,
        functions=[CH.SSHChannel.write, CH.SSHChannel._flush_send_buf, CH.SSHChannel._process_window_adjust, CH.SSHChannel.write_eof],
-       bounds='3 writes x {stdout, stderr} x 1..2 bytes, initial window in {0,1,3}, peer packet size 2, adjust 0..2 then 16, with/without write_eof (thorough: a 4th write of 0..2 bytes, packet size 1..3, window {0,1,2,4})'),
+       bounds='3 writes x {stdout, stderr} x 1..2 bytes, initial window in {0,1,3}, peer packet size 2, adjust 0..2 then 16, with/without write_eof (thorough: a 4th write of 1..2 bytes to either stream, window {0,1,2,4})'),
     Ob('text_codec', text_codec,
        sym=dict(cut=R(0, 40), paused=B, eof=B),
        shards=dict(enc=[0, 1, 2], wsel=[0, 1, 2, 3, 4, 5]),
